@@ -1,0 +1,82 @@
+//go:build verif
+// +build verif
+
+package forwarder
+
+import (
+	"context"
+	"fmt"
+
+	"github.com/jrivets/log4g"
+	"github.com/logrange/logrange/api"
+	"github.com/logrange/logrange/pkg/forwarder/sink"
+	"github.com/logrange/logrange/pkg/storage"
+)
+
+// VC18Handle is one forwarder "process" under test (verification harness, property C18): the real
+// Forwarder (state load, descriptor merge, persister goroutine) with one real worker whose sink is
+// injected instead of being built by sink.NewSink.
+type VC18Handle struct {
+	f    *Forwarder
+	w    *worker
+	d    *desc
+	done chan struct{}
+}
+
+// VC18Start mirrors Forwarder.Run for the first configured worker: NewForwarder, loadState,
+// toDescs/mergeDescs/setDescs (what init+sync do), then a worker on the merged descriptor with snk
+// as its sink running under wctx, and - when pctx is not nil - runPersistState(pctx).
+func VC18Start(wctx, pctx context.Context, cfg *Config, cli api.Client, st storage.Storage, snk sink.Sink) (*VC18Handle, error) {
+	f, err := NewForwarder(cfg, cli, st)
+	if err != nil {
+		return nil, err
+	}
+	if err := f.loadState(); err != nil {
+		return nil, err
+	}
+	if len(f.cfg.Workers) == 0 {
+		return nil, fmt.Errorf("no workers configured")
+	}
+	md := f.mergeDescs(f.getDescs(), f.toDescs(f.cfg))
+	f.setDescs(md)
+	name := f.cfg.Workers[0].Name
+	d := md[name]
+	w := newWorker(&workerConfig{
+		desc:   d,
+		sink:   snk,
+		rpcc:   f.client,
+		logger: f.logger.WithId(fmt.Sprintf("[%v]", name)).(log4g.Logger),
+	})
+	ws := make(workers)
+	ws[name] = w
+	f.workers.Store(ws)
+	h := &VC18Handle{f: f, w: w, d: d, done: make(chan struct{})}
+	f.waitWg.Add(1)
+	go func() {
+		_ = w.run(wctx)
+		f.waitWg.Done()
+		close(h.done)
+	}()
+	if pctx != nil {
+		f.runPersistState(pctx)
+	}
+	return h, nil
+}
+
+// Persist calls the forwarder's persistState (what the persister does on every tick)
+func (h *VC18Handle) Persist() error { return h.f.persistState() }
+
+// StopGracefully calls worker.stopGracefully
+func (h *VC18Handle) StopGracefully() { h.w.stopGracefully() }
+
+// Done is closed when worker.run has returned
+func (h *VC18Handle) Done() <-chan struct{} { return h.done }
+
+// IsStopped is worker.isStopped
+func (h *VC18Handle) IsStopped() bool { return h.w.isStopped() }
+
+// Position is desc.getPosition of the worker's descriptor
+func (h *VC18Handle) Position() string { return h.d.getPosition() }
+
+// Close is Forwarder.Close
+func (h *VC18Handle) Close() error { return h.f.Close() }
